@@ -7,7 +7,12 @@ import (
 )
 
 // Validate is a pass to sanity check an intermediate representation program.
-var Validate = Func(CheckDanglingInputs)
+var Validate = Func(func(p *ir.Program) error {
+	if err := CheckDanglingInputs(p); err != nil {
+		return err
+	}
+	return CheckUniqueOutputs(p)
+})
 
 // CheckDanglingInputs looks for program inputs that have no instruction
 // outputting them. Note this can happen and still be technically correct. For
@@ -21,6 +26,22 @@ func CheckDanglingInputs(p *ir.Program) error {
 			if !outputset[input.Index] {
 				return fmt.Errorf("no output instruction for input index %d", input.Index)
 			}
+		}
+		outputset[i.Output.Index] = true
+	}
+	return nil
+}
+
+// CheckUniqueOutputs looks for instructions that output an index which is
+// already defined: the first chain element, or the output of an earlier
+// instruction. This happens for a shift by zero, whose result is its operand.
+// Passes that key on the output index, such as allocation, would confuse the
+// two definitions.
+func CheckUniqueOutputs(p *ir.Program) error {
+	outputset := map[int]bool{0: true}
+	for _, i := range p.Instructions {
+		if outputset[i.Output.Index] {
+			return fmt.Errorf("multiple definitions of index %d", i.Output.Index)
 		}
 		outputset[i.Output.Index] = true
 	}
